@@ -41,6 +41,7 @@ type c23Op struct {
 	times    []int64 // invalidated seconds (offsets)
 	maxSize  int
 	force    bool
+	play     bool // play-mode request (q.play = 1): may be served stale rows, never judged for freshness
 }
 
 type c23Scenario struct {
@@ -54,6 +55,9 @@ func c23Scenarios(thorough bool) []c23Scenario {
 	G := func(key int, from, to int64) c23Op { return c23Op{kind: c23Get, key: key, from: from, to: to} }
 	I := func(ts ...int64) c23Op { return c23Op{kind: c23Inv, times: ts} }
 	L := func(n int) c23Op { return c23Op{kind: c23Limits, maxSize: n} }
+	GP := func(key int, from, to int64) c23Op {
+		return c23Op{kind: c23Get, key: key, from: from, to: to, play: true}
+	}
 	R := c23Op{kind: c23Reset}
 	LF := c23Op{kind: c23LimitsFrac}
 	T := func(ops ...c23Op) []c23Op { return ops }
@@ -73,6 +77,9 @@ func c23Scenarios(thorough bool) []c23Scenario {
 		// a cached chunk is invalidated, its reload fails (explorer choice), and it is requested again: the
 		// failed reload must not make the old rows look fresh
 		{name: "invalidate, failed reload, get again", fails: true, setup: T(G(0, 0, 60)), threads: [][]c23Op{T(I(5), G(0, 0, 60), G(0, 0, 60)), T(G(0, 30, 60))}},
+		// play-mode and ordinary requests share a bucket: what the play request may accept (rows up to one
+		// second stale) must not leak to an ordinary request that meets its reload in flight
+		{name: "play request reloads after invalidate, ordinary get meets it", setup: T(G(0, 0, 60)), threads: [][]c23Op{T(I(5), GP(0, 0, 60)), T(G(0, 0, 60))}},
 		{name: "loader failures", fails: true, threads: [][]c23Op{T(G(0, 0, 60), G(0, 0, 60)), T(G(0, 30, 60))}},
 	}
 	if thorough {
@@ -87,14 +94,17 @@ func c23Scenarios(thorough bool) []c23Scenario {
 }
 
 type c23World struct {
-	base    int64
-	version map[int64]int // storage version per second
-	invDone map[int64]int // version whose invalidation completed
-	loads   int
+	// published[key][second] = (load id, version) of the rows the cache held for that second when an invalidation of
+	// it completed: that load had certainly finished before the invalidation completed
+	published map[string]map[int64][2]int
+	base      int64
+	version   map[int64]int // storage version per second
+	invDone   map[int64]int // version whose invalidation completed
+	loads     int
 }
 
 func c23Run(x *mc.Exec, sc c23Scenario, rep *mc.Report) mc.Verdict {
-	w := &c23World{version: map[int64]int{}, invDone: map[int64]int{}}
+	w := &c23World{version: map[int64]int{}, invDone: map[int64]int{}, published: map[string]map[int64][2]int{}}
 	var viol, sig string
 	fail := func(s, m string) {
 		if viol == "" {
@@ -143,6 +153,7 @@ func c23Run(x *mc.Exec, sc c23Scenario, rep *mc.Report) mc.Verdict {
 		}
 		shard := c.shards[time.Second]
 		qs := []*queryBuilder{{cacheKey: "K0"}, {cacheKey: "K1"}, {cacheKey: "K2"}}
+		qsPlay := []*queryBuilder{{cacheKey: "K0", play: 1}, {cacheKey: "K1", play: 1}, {cacheKey: "K2", play: 1}} // the cache key has no play field: same bucket
 		var wg vsync.WaitGroup
 		runOp := func(name string, op c23Op) {
 			for once := true; once; once = false {
@@ -168,8 +179,20 @@ func c23Run(x *mc.Exec, sc c23Scenario, rep *mc.Report) mc.Verdict {
 							need[t] = w.invDone[t]
 						}
 					}
+					// ... and, also when a load is in flight: the rows the cache held when an invalidation completed
+					// come from a load that had finished before it; a request beginning afterwards must not get them
+					needPub := map[int64][2]int{}
+					for t, v := range w.published[qs[op.key].cacheKey] {
+						if t >= from && t < to {
+							needPub[t] = v
+						}
+					}
 					lod := data_model.LOD{Version: Version6, StepSec: 1, FromSec: from, ToSec: to, Location: time.UTC}
-					data, err := c.Get(context.Background(), h, qs[op.key], lod, op.force)
+					q := qs[op.key]
+					if op.play {
+						q = qsPlay[op.key]
+					}
+					data, err := c.Get(context.Background(), h, q, lod, op.force)
 					if err != nil {
 						if !sc.fails {
 							fail("C23:get-failed-without-loader-failure", fmt.Sprintf("%s Get(%d..%d) failed: %v", name, op.from, op.to, err))
@@ -193,7 +216,11 @@ func c23Run(x *mc.Exec, sc c23Scenario, rep *mc.Report) mc.Verdict {
 							fail("C23:misplaced-row", fmt.Sprintf("%s Get(key %d, %d..%d): slot %d holds the row of second %d key %d", name, op.key, op.from, op.to, i, r.time-w.base, r.tag[0]))
 							break
 						}
-						if v, ok := need[t]; ok && int(r.tag[1]) < v {
+						if n, ok := needPub[t]; ok && !op.play && int(r.tag[2]) == n[0] && int(r.tag[1]) < n[1] {
+							fail("C23:stale-after-invalidation", fmt.Sprintf("%s Get(key %d, %d..%d): second %d comes from load #%d (version %d), the very rows the cache held when the invalidation of version %d completed, and the request began after that", name, op.key, op.from, op.to, t-w.base, r.tag[2], r.tag[1], n[1]))
+							break
+						}
+						if v, ok := need[t]; ok && !op.play && int(r.tag[1]) < v {
 							fail("C23:stale-after-invalidation", fmt.Sprintf("%s Get(key %d, %d..%d): second %d has version %d from load #%d although the invalidation of version %d completed before the request began and no load was in flight", name, op.key, op.from, op.to, t-w.base, r.tag[1], r.tag[2], v))
 							break
 						}
@@ -210,7 +237,24 @@ func c23Run(x *mc.Exec, sc c23Scenario, rep *mc.Report) mc.Verdict {
 					}
 					c.invalidate(ts, 1) // ... then the cache is told
 					for _, o := range op.times {
-						w.invDone[w.base+o] = w.version[w.base+o]
+						t := w.base + o
+						w.invDone[t] = w.version[t]
+						for key, b := range shard.bucketM {
+							if b == nil {
+								continue
+							}
+							for _, ch := range b.chunks {
+								if ch.start <= t*int64(time.Second) && t*int64(time.Second) < ch.end && ch.data != nil {
+									idx := int((t*int64(time.Second) - ch.start) / int64(time.Second))
+									if idx < len(ch.data) && len(ch.data[idx]) == 1 && int(ch.data[idx][0].tag[1]) < w.version[t] {
+										if w.published[key] == nil {
+											w.published[key] = map[int64][2]int{}
+										}
+										w.published[key][t] = [2]int{int(ch.data[idx][0].tag[2]), w.version[t]}
+									}
+								}
+							}
+						}
 					}
 					log = append(log, name+":inv")
 				case c23Limits:
@@ -248,7 +292,14 @@ func c23Run(x *mc.Exec, sc c23Scenario, rep *mc.Report) mc.Verdict {
 		c.reset()
 		info := c.runtimeInfo()
 		if info.sizeS != [2]int{} || info.chunkCountS != [2]int{} || info.bucketCountS != [2]int{} || info.chunkSizeS != [2]int{} {
-			fail("C23:accounting-not-zero-after-reset", fmt.Sprintf("after reset: size=%v chunkCount=%v bucketCount=%v chunkSize=%v", info.sizeS, info.chunkCountS, info.bucketCountS, info.chunkSizeS))
+			sum := func(a [2]int) int { return a[0] + a[1] }
+			if sum(info.sizeS) == 0 && sum(info.chunkCountS) == 0 && sum(info.bucketCountS) == 0 && sum(info.chunkSizeS) == 0 {
+				// nothing leaked, but what was accounted to one play mode was released from the other: a bucket
+				// changes its mode when a play and an ordinary request share it, its accounted totals do not move
+				fail("C23:accounting-per-play-mode-not-zero-after-reset", fmt.Sprintf("after reset the per-mode figures [ordinary play] are size=%v chunkCount=%v bucketCount=%v chunkSize=%v (their sums are zero)", info.sizeS, info.chunkCountS, info.bucketCountS, info.chunkSizeS))
+			} else {
+				fail("C23:accounting-not-zero-after-reset", fmt.Sprintf("after reset: size=%v chunkCount=%v bucketCount=%v chunkSize=%v", info.sizeS, info.chunkCountS, info.bucketCountS, info.chunkSizeS))
+			}
 		}
 		c.shutdown().Wait()
 		finished = true
